@@ -80,6 +80,17 @@ def write_evidence(mod, tier, seed, agg, wall, violations_n, known_met):
     os.replace(tmp, path)
 
 
+def _run_chunked(pool, mod, specs, t0, budget):
+    """Submit the batch in slices so that a thorough run honours its time budget inside a batch too."""
+    step = max(16, 4 * pool.workers)
+    for i in range(0, len(specs), step):
+        part = specs[i:i + step]
+        for spec, r in zip(part, pool.map_plain(mod.task, part)):
+            yield spec, r
+        if budget is not None and time.time() - t0 > budget:
+            return
+
+
 def run_check(mod, tier, replay_path=None):
     seed = verif_seed()
     t0 = time.time()
@@ -108,7 +119,7 @@ def run_check(mod, tier, replay_path=None):
             specs = mod.plan(tier, seed, batch)
             if not specs:
                 break
-            for spec, r in zip(specs, pool.map_plain(mod.task, specs)):
+            for spec, r in _run_chunked(pool, mod, specs, t0, budget):
                 agg["tasks"] += 1
                 agg["evals"] += r.get("evals", 0)
                 agg["keys"].update(r.get("keys", []))
